@@ -563,7 +563,7 @@ impl Check for C19 {
     }
     fn total_cases(&self, tier: Tier) -> u64 {
         match tier {
-            Tier::Quick => 30000,
+            Tier::Quick => 60000,
             Tier::Thorough => 3_000_000,
         }
     }
